@@ -118,19 +118,30 @@ def run_lines(binary, reqs, tag, timeout=600, args=(), encode=None, use_stdin=Fa
             out, rc, err = (e.stdout or b"").decode() if isinstance(e.stdout, bytes) else (e.stdout or ""), -9, "timeout"
         os.unlink(inp)
         seen = set()
-        for line in out.splitlines():
+        bad = []
+        for line in out.split("\n"):
+            if not line.strip():
+                continue
             try:
                 r = json.loads(line)
             except ValueError:
+                bad.append(line[:200])
                 continue
             if "rid" in r:
                 results[r["rid"]] = r
                 seen.add(r["rid"])
+            else:
+                bad.append(line[:200])
         rest = [r for r in pending if r["rid"] not in seen]
         if not rest:
             break
-        if rc == 0 and len(rest) == len(pending):
-            raise ToolError("%s produced no output: %s" % (binary, err[-2000:]))
+        if rc == 0:
+            if len(rest) == len(pending) and len(pending) > 3:
+                raise ToolError("%s produced no output: %s %s" % (binary, err[-2000:], bad[:3]))
+            # the process ended normally but did not answer these requests (harness-level problem)
+            for r in rest:
+                results[r["rid"]] = {"rid": r["rid"], "harness_no_response": bad[:2]}
+            break
         # the first unanswered request killed the process
         dead = rest[0]
         if dead["rid"] not in results:
@@ -2151,7 +2162,268 @@ def check_c16(ctx):
     return rep.finish()
 
 
+# ------------------------------------------------------------------------------ C10 the compiler never crashes
+KEYWORDS = ["packet", "struct", "enum", "group", "custom_field", "checksum", "test", "_payload_", "_body_", "_size_",
+            "_count_", "_elementsize_", "_fixed_", "_reserved_", "_padding_", "_checksum_start_", "if", "..",
+            "little_endian_packets", "big_endian_packets"]
+BIGNUMS = ["0", "1", "63", "64", "65", "255", "256", "65535", "4294967295", "4294967296", "9223372036854775807",
+           "9223372036854775808", "18446744073709551615", "18446744073709551616", "0xffffffffffffffff",
+           "0x10000000000000000", "99999999999999999999999999", "0X1F", "00", "0x"]
+
+
+def mutate_text(rng, src):
+    import re
+    k = rng.randrange(12)
+    if k == 0:
+        i = rng.randrange(len(src) + 1)
+        return src[:i]
+    if k == 1:
+        i = rng.randrange(len(src))
+        j = min(len(src), i + rng.randrange(1, 12))
+        return src[:i] + src[j:]
+    if k == 2:
+        i = rng.randrange(len(src))
+        return src[:i] + rng.choice(["\x00", "\t", "\r", "\u00e9", "\u2028", "\U0001F600", "{", "}", "(", ")", ",", ":", "=", "\"", "/*", "*/", "//", "+", "[", "]"]) + src[i:]
+    if k in (3, 4):
+        nums = list(re.finditer(r"\b[0-9]+\b", src))
+        if nums:
+            m = rng.choice(nums)
+            return src[:m.start()] + rng.choice(BIGNUMS) + src[m.end():]
+    if k == 5:
+        toks = list(re.finditer(r"[A-Za-z_][A-Za-z_0-9]*", src))
+        if toks:
+            m = rng.choice(toks)
+            return src[:m.start()] + rng.choice(KEYWORDS) + src[m.end():]
+    if k == 6:
+        toks = list(re.finditer(r"[A-Za-z_][A-Za-z_0-9]*", src))
+        if len(toks) > 1:
+            a, b = rng.sample(toks, 2)
+            if a.start() > b.start():
+                a, b = b, a
+            return src[:a.start()] + b.group() + src[a.end():b.start()] + a.group() + src[b.end():]
+    if k == 7:
+        lines = src.split("\n")
+        i = rng.randrange(len(lines))
+        return "\n".join(lines[:i] + [lines[i]] + lines[i:])       # duplicate a line (duplicate fields / decls)
+    if k == 8:
+        return src.replace(" ", "", rng.randrange(1, 4))             # glue tokens
+    if k == 9:
+        i = rng.randrange(len(src))
+        return src[:i] + rng.choice(["/* unterminated", "\"unterminated", "// c\n", "/* c */"]) + src[i:]
+    if k == 10:
+        lines = src.split("\n")
+        rng.shuffle(lines)
+        return "\n".join(lines)
+    return "".join(chr(rng.randrange(1, 0x250)) for _ in range(rng.randrange(0, 80)))
+
+
+def py_compiles(src, name):
+    try:
+        compile(src, name, "exec")
+        return None
+    except Exception as e:  # noqa
+        return repr(e)[:300]
+
+
+def cxx_syntax_ok(units, info):
+    """g++ -fsyntax-only on every generated header of the C++-supported class, in parallel"""
+    import concurrent.futures
+    rt = os.path.join(REPO, "pdl-compiler", "scripts")
+    root = os.path.join(WORK, "cxxsyn")
+    os.makedirs(root, exist_ok=True)
+    todo = [u for u in units if u.status == "accepted" and info.get(u.name, {}).get("cxx") and "ok" in u.resp.get("cxx", {})]
+
+    def one(u):
+        p = os.path.join(root, u.mod + ".h")
+        with open(p, "w") as f:
+            f.write(u.resp["cxx"]["ok"])
+        r = subprocess.run(["g++", "-std=c++17", "-fsyntax-only", "-w", "-I", rt, "-x", "c++", p], stdout=subprocess.PIPE,
+                           stderr=subprocess.STDOUT, text=True)
+        os.unlink(p)
+        return (u, None if r.returncode == 0 else r.stdout[-800:])
+    out = {}
+    with concurrent.futures.ThreadPoolExecutor(NCPU) as ex:
+        for (u, err) in ex.map(one, todo):
+            out[u.name] = err
+    return out
+
+
+def norm_msg(m):
+    import re
+    m = re.sub(r"`[^`]*`", "`X`", m or "")
+    m = re.sub(r"\"[^\"]*\"", '"X"', m)
+    return re.sub(r"[0-9]+", "N", m)[:90]
+
+
+def check_c10(ctx):
+    rep = Report("C10", ctx.tier, ctx.seed)
+    rng = random.Random(ctx.seed * 31337 + 5)
+    descs = kit.build(ctx.tier) + kit.schema_descs(ctx.tier) + kit.c10_descs(ctx.tier)
+    units = make_units(descs)
+    compile_units(ctx.driver(), units, ["parse", "analyze", "json", "rust", "python", "cxx"])
+    jobs = [dict(d=k + 1, type="", anc="", mode="info", n=0) for k, u in enumerate(units) if u.status == "accepted"]
+    _, info = run_jobs(ctx, units, jobs, rep, tag="c10info")
+    # target compilation of what was generated, inside each backend's supported class
+    rs_units = [u for u in units if u.status == "accepted" and info.get(u.name, {}).get("rust")]
+    saved = {u.name: u.status for u in units}
+    for u in units:
+        if u not in rs_units and u.status == "accepted":
+            u.status = "accepted_outside_rust"
+    build_rust_harness(units)
+    for u in units:
+        u.status = saved[u.name]
+    cxxerr = cxx_syntax_ok(units, info)
+    jmods, _ = build_java(ctx, units, info)
+    runs = []
+    where = {}
+
+    def outcome_of(x):
+        if not isinstance(x, dict):
+            return "missing"
+        if "ok" in x:
+            return "ok"
+        if "panic" in x:
+            return "panic"
+        if "timeout" in x:
+            return "timeout"
+        return "error"
+
+    for u in units:
+        r = u.resp
+        ev = []
+        detail = {}
+        if "timeout" in r or "abnormal" in r:
+            ev.append(dict(ev="parse", b="", outcome="abort" if "abnormal" in r else "timeout"))
+            detail["parse"] = r
+        else:
+            p = r.get("parse", {})
+            po = "ok" if "ok" in p else "diag" if "diag" in p else outcome_of(p)
+            if po == "diag" and p.get("emit") != "ok":
+                po = "diag_render_failed"
+            ev.append(dict(ev="parse", b="", outcome=po))
+            detail["parse"] = p if po != "ok" else "ok"
+            if po == "ok":
+                if "json" in r:
+                    ev.append(dict(ev="generate", b="json", outcome=outcome_of(r["json"])))
+                a = r.get("analyze", {})
+                ao = "ok" if "ok" in a else "diag" if "diags" in a else outcome_of(a)
+                if ao == "diag" and a.get("emit") != "ok":
+                    ao = "diag_render_failed"
+                ev.append(dict(ev="analyze", b="", outcome=ao))
+                detail["analyze"] = a if ao not in ("ok",) else "ok"
+                if ao == "ok":
+                    inf = info.get(u.name, {})
+                    for b, flag in (("rust", "rust"), ("python", "py"), ("cxx", "cxx")):
+                        if not inf.get(flag):
+                            continue
+                        g = r.get(b, {})
+                        go = outcome_of(g)
+                        ev.append(dict(ev="generate", b=b, outcome=go))
+                        if go != "ok":
+                            detail["generate_" + b] = g
+                            continue
+                        if b == "rust":
+                            co = "ok" if u.rust == "ok" else "error"
+                            if co != "ok":
+                                detail["compile_rust"] = u.rust
+                        elif b == "python":
+                            e = py_compiles(g["ok"], u.mod + ".py")
+                            co = "ok" if e is None else "error"
+                            if e:
+                                detail["compile_python"] = e
+                        else:
+                            e = cxxerr.get(u.name)
+                            co = "ok" if e is None else "error"
+                            if e:
+                                detail["compile_cxx"] = e
+                        ev.append(dict(ev="compile", b=b, outcome=co))
+                    if inf.get("java"):
+                        js = getattr(u, "java", "missing")
+                        if js.startswith("generate_failed"):
+                            ev.append(dict(ev="generate", b="java", outcome="panic" if "panic" in js else "error"))
+                            detail["generate_java"] = js
+                        else:
+                            ev.append(dict(ev="generate", b="java", outcome="ok"))
+                            ev.append(dict(ev="compile", b="java", outcome="ok" if js == "ok" else "error"))
+                            if js != "ok":
+                                detail["compile_java"] = js
+        rid = len(runs)
+        runs.append(dict(rid=rid, events=ev))
+        where[rid] = ("desc", u, detail)
+    # mutated and random texts: parse / analyze / json must answer with a value or a diagnostic
+    nmut = 4000 if ctx.tier == "quick" else 60000
+    srcs = [u.src for u in units]
+    texts = []
+    for i in range(nmut):
+        t = rng.choice(srcs)
+        for _ in range(rng.choice([1, 1, 1, 2, 3])):
+            t = mutate_text(rng, t) or t
+        texts.append(t)
+    reqs = [dict(rid=i, name="mut%d.pdl" % i, src=t, want=["parse", "analyze", "json"]) for i, t in enumerate(texts)]
+    mres = run_driver(ctx.driver(), reqs, tag="mut")
+    nacc = 0
+    for i, t in enumerate(texts):
+        r = mres.get(i, {})
+        ev = []
+        if "timeout" in r or "abnormal" in r or not r:
+            ev.append(dict(ev="parse", b="", outcome="timeout" if "timeout" in r else "abort"))
+        else:
+            p = r.get("parse", {})
+            po = "ok" if "ok" in p else "diag" if "diag" in p else outcome_of(p)
+            if po == "diag" and p.get("emit") != "ok":
+                po = "diag_render_failed"
+            ev.append(dict(ev="parse", b="", outcome=po))
+            if po == "ok":
+                ev.append(dict(ev="generate", b="json", outcome=outcome_of(r.get("json"))))
+                a = r.get("analyze", {})
+                ao = "ok" if "ok" in a else "diag" if "diags" in a else outcome_of(a)
+                if ao == "diag" and a.get("emit") != "ok":
+                    ao = "diag_render_failed"
+                if ao == "ok":
+                    nacc += 1
+                ev.append(dict(ev="analyze", b="", outcome=ao))
+        rid = len(runs)
+        runs.append(dict(rid=rid, events=ev))
+        where[rid] = ("text", t, r)
+    tr = os.path.join(ctx.tmp, "runs.ndjson")
+    write_ndjson(tr, runs)
+    lines, stats = tlc("Trace_Compile", "Trace_Compile.cfg", dict(TRACE=tr), tag="ctrace")
+    rep.tlc_stats(stats)
+    accepted = {x["rid"] for x in parse_tagged(lines, "ACCEPT")}
+    for run in runs:
+        rep.validated()
+        if run["rid"] in accepted:
+            if run["rid"] % 997 == 1:
+                kind, what, _ = where[run["rid"]]
+                rep.sample({"source": what.name if kind == "desc" else what[:120], "events": run["events"]})
+            continue
+        kind, what, detail = where[run["rid"]]
+        bad = next((e for e in run["events"] if e["outcome"] not in ("ok", "diag")), run["events"][-1] if run["events"] else {})
+        stage = "%s%s" % (bad.get("ev"), (":" + bad["b"]) if bad.get("b") else "")
+        msg = ""
+        if kind == "desc":
+            dd = detail.get(("generate_" if bad.get("ev") == "generate" else "compile_") + bad.get("b", "")) or detail.get(bad.get("ev"))
+            msg = dd.get("panic", "") if isinstance(dd, dict) else str(dd)
+            fp = "C10|%s|%s|%s|%s" % (stage, what.name, bad.get("outcome"), norm_msg(msg))
+            rep.violation(fp, {"desc": what.desc, "pdl": what.src, "events": run["events"], "observed": detail})
+        else:
+            dd = detail.get(bad.get("ev")) if isinstance(detail, dict) else None
+            if bad.get("ev") == "generate":
+                dd = detail.get("json")
+            msg = dd.get("panic", "") if isinstance(dd, dict) else ""
+            fp = "C10|%s|text|%s|%s" % (stage, bad.get("outcome"), norm_msg(msg))
+            rep.violation(fp, {"pdl": what, "events": run["events"], "observed": detail})
+    rep.notes["descriptions"] = len(units)
+    rep.notes["mutated_texts"] = nmut
+    rep.notes["mutated_texts_accepted_by_analyzer"] = nacc
+    rep.assumptions += ["'compiles' is demanded only inside the backend's Supported predicate (spec/PdlSupport.tla)",
+                        "panics, aborts and timeouts are observed by the driver (catch_unwind, watchdog, fresh process per batch); "
+                        "the specification's role is to classify the recorded run (PdlCompile has no action for them)"]
+    return rep.finish()
+
+
 CHECKS = {p: (lambda ctx, p=p: check_rust_codec(p, ctx)) for p in CODEC_MODES}
+CHECKS["C10"] = check_c10
 CHECKS["C16"] = check_c16
 CHECKS["C07"] = check_c07
 CHECKS["C19"] = check_c19
